@@ -42,7 +42,7 @@ def plan(tier, seed):
         K = int(rng.integers(1, 7))
         F = int(pick([1, 3, 5, 9, 17, 33, 65]))
         cases.append(dict(lane='aligner', aligner=pick(['dhtv', 'greedy', 'oracle']), metric=pick(['cos', 'euclidean', 'multiply']), alg=pick(['greedy', 'optimal']),
-                          mask=pick(MASKS), K=K, F=F, T=int(pick([1, 2, 5, 20, 128])), rs=[seed, 16, i]))
+                          mask=pick(MASKS), K=K, F=int(pick([1, 3, 5, 9, 17, 33, 65, 129])) if r % 5 == 0 else F, T=int(pick([1, 2, 5, 20, 128])), rs=[seed, 16, i]))
         i += 1
     p = S(tier, 60, 600)
     for r in range(p):
@@ -98,6 +98,8 @@ def run_matrix(case, R):
     else:
         t = np.dtype(dt)
         sm = rng.integers(np.iinfo(t).min // 2, np.iinfo(t).max // 2, size=shape).astype(t)
+    if case['rs'][-1] % 3 == 0:
+        sm = np.ascontiguousarray(np.swapaxes(sm, -1, -2)).swapaxes(-1, -2) if case['rs'][-1] % 2 else np.asfortranarray(sm)     # transposed / Fortran-ordered
     before = sm.copy()
     try:
         mp = pa._mapping_from_score_matrix(sm, algorithm=case['alg'])
@@ -146,6 +148,8 @@ def run_aligner(case, R):
     rng = gen.rng_of(case)
     K, F, T = case['K'], case['F'], case['T']
     mask = make_mask(rng, case['mask'], K, F, T)
+    if case['rs'][-1] % 3 == 0:
+        mask = np.ascontiguousarray(np.transpose(mask, (1, 0, 2))).transpose(1, 0, 2)      # an (F, K, T) array viewed as (K, F, T)
     before = mask.copy()
     which, metric, alg = case['aligner'], case['metric'], case['alg']
     info = dict(aligner=which, metric=metric, alg=alg, mask=case['mask'], K=K, F=F, T=T)
@@ -179,6 +183,16 @@ def run_aligner(case, R):
     if okp:
         ok = aligned.shape == mask.shape and all(np.array_equal(aligned[:, f], mask[mapping[:, f], f]) for f in range(F))
         R.check('C14.aligned', ok, f'aligned/{which}/rows', f'{which}: aligned[k, f] != mask[mapping[k, f], f]', **info)
+        # the same valid mapping stored with a narrow integer dtype must give the same rows
+        for dt in (np.int8, np.uint8, np.int16, np.int32):
+            if K - 1 <= np.iinfo(dt).max:
+                try:
+                    a2 = pa.apply_mapping(mask, mapping.astype(dt))
+                    R.check('C14.aligned', np.array_equal(a2, aligned), f'apply_mapping/mapping-dtype/{np.dtype(dt).name}', f'apply_mapping with a {np.dtype(dt).name} mapping returns other rows (K={K}, F={F})', **info)
+                except Exception as e:
+                    if not instr.is_library_exception(e):
+                        raise
+                    R.count(f'apply_mapping with {np.dtype(dt).name} mapping raised {type(e).__name__}')
         if ok:
             R.check('C14.aligned', np.array_equal(np.sort(aligned, axis=0), np.sort(mask, axis=0)), f'aligned/{which}/multiset', 'per-bin multiset of values changed', **info)
     if K >= 2 and F >= 3:
@@ -239,6 +253,11 @@ def run_builtin(case, R):
     K, F, T = case['K'], case['F'], case['T']
     spatial = rng.standard_normal((F, K, T)) * case['spread']
     spectral = rng.standard_normal((F, K, T)) * case['spread']
+    if case['rs'][-1] % 4 == 0 and T >= 2:
+        # outlier frames: the whole frame lies ~900 nats below the rest of the bin under both streams (a silent or clipped frame)
+        t0 = int(rng.integers(T))
+        spatial[:, :, t0] -= 900.0
+        spectral[:, :, t0] -= 300.0
     wk = case['wkind']
     if wk == 'fk':
         w = rng.dirichlet([1.0] * K, size=F)[..., None]
